@@ -8,6 +8,7 @@
 //verif:zeroglobal crypto/rand.Reader
 //verif:summary github.com/notaryproject/notation-core-go/internal/timestamp.Timestamp -> sumTimestamp
 //verif:iface attr string int64 int bool []byte float64
+//verif:iface timestamper nil github.com/notaryproject/notation-core-go/signature/cose.envTimestamper
 //verif:iface .Value int64 bool
 package cose
 
@@ -69,6 +70,9 @@ func signMarshal(v any) ([]byte, error) {
 		return x.MarshalCBOR()
 	case cbor.Tag:
 		finalCalls++
+		if finalCalls == 1 {
+			marshalFails = rt.Choose("final.encoding.fails", 2) == 1
+		}
 		if marshalFails {
 			return nil, rt.NewEnvError("cbor.encode")
 		}
